@@ -112,6 +112,11 @@ def main():
         res["counterexample"] = STATE.counterexample
         res["functions_encoded"] = sorted(f"{f}:{q}" for f, q in plugin.ENCODED)
         res["fallthrough"] = sorted(fallthrough)
+        try:
+            from models import np_model as _npm
+            res["lifted"] = sorted(set(_npm.LIFTED))
+        except Exception:  # noqa
+            res["lifted"] = []
         res["rebound"] = len(rebound)
         res["real_for_float_values"] = realfloat[0]
     except BaseException as e:  # noqa
